@@ -75,6 +75,12 @@ pub fn run_call(step: &Value, cwd: &Path) -> String {
             None => std::env::remove_var("TS_RS_EXPORT_DIR"),
         }
     }
+    // the process may have moved to another working directory (a sibling of the usual one) before this call
+    let moved = step.get("cwd").and_then(Value::as_str).map(|sub| cwd.parent().unwrap().join(sub));
+    if let Some(d) = &moved {
+        std::fs::create_dir_all(d).unwrap();
+        std::env::set_current_dir(d).unwrap();
+    }
     let e = find(ty);
     let dir = step.get("dir").and_then(Value::as_str).map(|d| subst(d, cwd));
     let res = std::panic::catch_unwind(|| match entry {
@@ -83,6 +89,9 @@ pub fn run_call(step: &Value, cwd: &Path) -> String {
         "export_all_to" => (e.export_all_to)(dir.as_deref().unwrap()),
         other => panic!("unknown entry {other}"),
     });
+    if moved.is_some() {
+        std::env::set_current_dir(cwd).unwrap();
+    }
     match res {
         Ok(Ok(())) => "Ok".into(),
         Ok(Err(err)) => format!("Err:{}", err_class(&err)),
